@@ -8,7 +8,7 @@ from suite import Batch
 
 ENVS = [
     {},
-    {"FRUGAL_MAX_INLINE_DEPTH": "0x10", "FRUGAL_MAX_INLINE_IL_SIZE": "0x1000"},       # hexadecimal spelling
+    {"FRUGAL_MAX_INLINE_DEPTH": "0x10", "FRUGAL_MAX_INLINE_IL_SIZE": "0x400"},        # hexadecimal spelling; 1024 is also a field id of the universe
     {"FRUGAL_MAX_INLINE_DEPTH": "2"},                                                # smallest valid depth
     {"FRUGAL_MAX_INLINE_DEPTH": "0b101", "FRUGAL_MAX_INLINE_IL_SIZE": "60_000"},     # binary, digit separators
     {"FRUGAL_MAX_INLINE_DEPTH": "3", "FRUGAL_MAX_INLINE_IL_SIZE": "257"},            # smallest valid IL size
@@ -38,6 +38,13 @@ def run17(prop, tier, seed, work):
                                {"id": 2, "key": "2", "req": "default", "t": {"k": "i32", "ptr": False, "gotype": "uint32"}, "nocopy": False,
                                 "name": list(b"F2"), "rawtag": 'frugal:"2,default"', "opaque": True}])
         uf["BadP"]["invalid"] = True
+        # accepted types whose InitDefault is declared in an unusual way (value receiver: a no-op on a copy; extra parameters: not
+        # the initialiser interface at all): the codec treats both as types without declared defaults, Pretouch accepts them
+        uf["OddInitV"] = U.struct([U.field(1, "default", U.T("i32")), U.field(2, "optional", U.T("string", True)), U.field(3, "default", U.ST("Leaf", True))])
+        uf["OddInitV"]["extra_decl"] = ["func (p OddInitV) InitDefault() { p.F1 = 7 }"]
+        uf["OddInitS"] = U.struct([U.field(1, "default", U.T("i64")), U.field(2, "default", U.L(U.T("string")))])
+        uf["OddInitS"]["extra_decl"] = ["func (p *OddInitS) InitDefault(x ...int) { p.F1 = 9 }"]
+        uf["OddNest"] = U.struct([U.field(1, "default", U.ST("OddInitV", True)), U.field(2, "default", U.L(U.ST("OddInitS", True)))])
         # private cyclic graphs that reach an unsupported member: BA{*BB,*Bd}, BB{*BA}, BC{*BB}
         ncyc = 6
         for c in range(ncyc):
@@ -105,6 +112,14 @@ def run17(prop, tier, seed, work):
                      {"op": "legacy", "call": "NoJIT", "ty": "", "arg": 0}]
             sid = "C17-e%d-beforeafter-%s" % (ei, call)
             scen.append({"sid": sid, "prop": prop, "vals": [], "steps": steps, "tags": ["before-after", call], "dkey": sid})
+        for oi, s in enumerate(("OddInitV", "OddInitS", "OddNest")):
+            v = U.base_value({"k": "struct", "ptr": False, "s": s}, uf, 2, 3)
+            steps = [{"op": "legacy", "call": ["Pretouch", "PretouchValue", "PretouchOpts"][(oi + ei) % 3], "ty": s, "arg": 1},
+                     {"op": "size", "ty": s, "v": 0}, {"op": "encode", "ty": s, "v": 0, "buf": {"mode": "rel", "n": 0, "extra": 0}},
+                     {"op": "decode", "ty": s, "from": 2, "dest": "fresh", "orig": 0},
+                     {"op": "legacy", "call": "Pretouch", "ty": s, "arg": 0}, {"op": "legacy", "call": "PretouchValue", "ty": s, "arg": 0}]
+            sid = "C17-e%d-oddinit-%s" % (ei, s)
+            scen.append({"sid": sid, "prop": prop, "vals": [v], "steps": steps, "tags": ["odd-initialiser"], "dkey": sid})
         # Pretouch given a pointer to an object the caller keeps using: by-value calls with other values of the type must
         # not reach it
         for s in names[:12]:
@@ -255,6 +270,17 @@ def run18(prop, tier, seed, work):
                 sc.append({"sid": sid, "prop": prop, "vals": [v], "tags": [], "dkey": sid,
                            "steps": [{"op": "allocs", "ty": s, "v": 0, "calls": 100}]})
             batches.append(Batch("random%d" % i, ur, sc, env={"GOMAXPROCS": "1"}))
+    # every call sees a larger value than any call before (a string field grows by a few bytes each time)
+    gsc = []
+    for s in sorted(uf.keys()):
+        fs = [f for f in uf[s]["fields"] if f["t"]["k"] == "string" and not f["t"].get("ptr") and "gotype" not in f["t"]]
+        if not fs or uf[s].get("invalid"):
+            continue
+        v = U.base_value({"k": "struct", "ptr": False, "s": s}, uf, 2, 4)
+        sid = "C18-grow-%s" % s
+        gsc.append({"sid": sid, "prop": prop, "vals": [v], "tags": ["growing-values"], "dkey": sid,
+                    "steps": [{"op": "allocs", "ty": s, "v": 0, "calls": 100, "grow": fs[-1]["key"]}]})
+    batches.append(Batch("growing", uf, gsc, env={"GOMAXPROCS": "1"}))
     # warm types that share a slot of the descriptor table (the driver picks the pairs among many tiny types), used alternately
     cd = {"Col%d" % k: U.struct([U.field(1, "default", U.T("i32"))]) for k in range(1500 if quick else 5000)}
     U.with_defaults(cd)
